@@ -4,7 +4,7 @@ use crate::c01::case_json;
 use crate::util::*;
 use serde_json::{Value, json};
 
-const NSYM: usize = 25;
+const NSYM: usize = 27;
 
 /// resolve symbol `sym` into a concrete op given what happened so far
 struct Tracker {
@@ -53,6 +53,9 @@ impl Tracker {
             21 => Op::Add { name: self.names.first().cloned().unwrap_or_else(|| "dup0".into()), size: 2, src: data(rng, 2) },
             22 => Op::Add { name: self.fresh(), size: 10, src: data(rng, 3) }, // short source
             23 => Op::Flush,
+            // multi-byte names: the limit is in BYTES (65536), not in characters
+            25 => Op::Start("é".repeat(40000)),  // 40 000 characters, 80 000 bytes: refused
+            26 => Op::Start(format!("{}{}", "é".repeat(32767), if self.next_fresh % 2 == 0 { "ab" } else { "cd" })), // 65 536 bytes: accepted (once)
             _ => Op::Finalize,
         }
     }
